@@ -201,7 +201,7 @@ func c05variants(kind string) int {
 	case "nv":
 		return len(c05nvOps)
 	case "si":
-		return 7 // 0-3 exact x strip, 4 interim prompt, 5 eager, 6 small search depth + long input
+		return 8 // 0-3 exact x strip, 4 ends at an interim prompt, 5 eager, 6 small search depth + long input, 7 interim given but ends at the channel prompt
 	case "ia":
 		return 4 // 0-1 dialogues, 2 complete patterns, 3 exact input
 	case "as":
@@ -359,6 +359,9 @@ func c05build(cs c05case) (*c05env, error) {
 			switch cs.variant {
 			case 4:
 				cmd, interim = "show paged", hx("more:")
+				o = append(o, opoptions.WithInterimPromptPattern([]*regexp.Regexp{regexp.MustCompile("more:")}))
+			case 7:
+				interim = hx("more:")
 				o = append(o, opoptions.WithInterimPromptPattern([]*regexp.Regexp{regexp.MustCompile("more:")}))
 			case 5:
 				eager = true
@@ -1242,8 +1245,8 @@ func c05kPoints(c *ctx, ref *c05ref, r *vlib.Rng) []int {
 		}
 	}
 	stride := 5
-	if ref.total > 120 {
-		stride = 29
+	if ref.total > 60 {
+		stride = ref.total / 8
 	}
 	if c.scale > 1 {
 		stride = stride/2 + 1
@@ -1303,12 +1306,12 @@ func runC05(c *ctx) {
 			var cases []c05case
 			for _, setting := range c05settings(kind) {
 				for seg := 0; seg < 3; seg++ {
-					if !c.thorough() && c05variants(kind) > 1 && (v+seg)%2 == 1 && setting != "conn" {
-						continue // quick: thin out variant x segmentation for the override settings
-					}
 					thin := kind == "nv" || kind == "gb" || kind == "as" || (kind == "au" && v >= 1) || (kind == "si" && v >= 4) || (kind == "ia" && v >= 2) || (kind == "he" && v >= 1) || (kind == "cb" && v >= 1)
 					if !c.thorough() && thin && ((setting == "conn" && seg != v%3) || (setting != "conn" && seg != (v+1)%3)) {
 						continue // quick: one segmentation class per variant and setting (rotating)
+					}
+					if !c.thorough() && !thin && c05variants(kind) > 1 && (v+seg)%2 == 1 && setting != "conn" {
+						continue // quick: thin out variant x segmentation for the override settings
 					}
 					for _, k := range c05kPoints(c, ref, c.rng) {
 						cases = append(cases, c05case{kind: kind, variant: v, seg: seg, setting: setting, k: k, seed: c.rng.U64()})
@@ -1321,9 +1324,18 @@ func runC05(c *ctx) {
 				if i+1 < len(ref.starts) {
 					end = ref.starts[i+1]
 				}
-				for _, k := range []int{st, (st + end) / 2} {
+				ks := []int{st, (st + end) / 2}
+				seg := c.rng.Intn(3)
+				if !c.thorough() {
+					// quick: one point per phase, whole reactions (no delivery budget on top of the long timeout)
+					ks, seg = []int{(st + end) / 2}, 0
+					if v > 1 && i%2 == 1 {
+						continue
+					}
+				}
+				for _, k := range ks {
 					if k < ref.total {
-						cases = append(cases, c05case{kind: kind, variant: v, seg: c.rng.Intn(3), setting: "clong", k: k, seed: c.rng.U64()})
+						cases = append(cases, c05case{kind: kind, variant: v, seg: seg, setting: "clong", k: k, seed: c.rng.U64()})
 					}
 				}
 			}
